@@ -21,7 +21,7 @@ RULE = ("scenarios = channel (4 writer-lock kinds x 3 reader modes x requested c
         "of tagged messages that force wrap-around and FULL, one reader), array blocking queue (capacity 1..4, 1..3 "
         "producers, 1..3 consumers) and double buffer (capacity 1..4, blocking and non-blocking, 1..3 writers), each "
         "under seeded random schedules (context-switch density 20/50/80/95 %, weak-CAS spurious failure 0/30 %, condvar "
-        "spurious wake-up 0/20 %), hand-written list schedules and model-guided list schedules (walks of the extracted model that reach the proofs' case-split windows), run on the real code under the deterministic "
+        "spurious wake-up 0/20 %, futex wait interrupted (EINTR) / spuriously woken 0/20/40 % in the sync-reader and synclock-writer scenarios), hand-written list schedules and model-guided list schedules (walks of the extracted model that reach the proofs' case-split windows), run on the real code under the deterministic "
         "scheduler; every trace is replayed on the extracted model (trace acceptance) and checked by the independent "
         "monitor; non-trivial = the trace contains a FULL result, a cursor wrap-around, a futex/condvar sleep or a "
         "contended lock; distinct = distinct trace text")
@@ -37,6 +37,7 @@ EVIDENCE_NOTES = [
     "proved for every schedule, any number of writers, any capacity (1 and 2 included), all 4 x 3 modes, with the memory orders re-extracted from the code: chan_inv_reachable (A.5 SC invariant: cursors = history lengths mod capacity, unread <= capacity-2, slots hold accepted minus delivered, one writer in the serialised region, cached cursor interval), chan_inv_views_reachable (view invariants: through the write_cursor stamp in sync/busy modes, through read_mutex in the mutex mode), chan_exactly_once_in_order (delivered is a prefix of accepted, equal when drained), chan_per_writer_order (same-writer messages appear with increasing sequence numbers in accepted and delivered), chan_full_only_if_full, chan_no_overwrite, chan_payload_visible (no uncovered plain read; the message about to be returned is accepted and its payload write is in the reader's view); abq_fifo and dbuf_batches_in_order (any number of producers/consumers/writers, any capacity, spurious wake-ups); Examples of non-vacuity next to each (chan_nonvacuous, chan_mutex_nonvacuous, abq_nonvacuous, dbuf_nonvacuous)",
     "array blocking queue and double buffer carry views as well (mutex stamp, slot and payload versions, ghost uncovered-read counters): abq_payload_visible, dbuf_payload_visible (no uncovered plain read; the item / batch entry about to be consumed was put / written and its payload write is in the consumer's view) and dbuf_full_only_if_full (a write is refused or put to sleep only when the back buffer holds capacity items, the reader sleeps only when it is empty; ghost check computed from the histories) are theorems for every schedule, any number of threads, any capacity",
     "model-guided schedules (DESIGN.md 4.3): the guide mode of ocaml/c01_driver.ml explores the extracted channel model with biased random walks and emits the walks that reach the proofs' case-split windows (w1 reader commits read_cursor between a writer's cursor load and its full check / slot store; w2 reader loads write_cursor between slot store and publication; w3 cached read cursor refreshed in busy mode; w4 publication wraps write_cursor to 0 leaving capacity-2 unread; w5 a writer publishes between the reader's check and its futex sleep) as 'sched list' schedules; the generator adds them in both tiers and the tally reports, from the IMPLEMENTATION traces, how many guided schedules went through each window (guided_window_w1..w5, guided_target_hit) next to the counts over all schedules (window_w1..w5)",
+    "futex waits: the model's fwait steps (reader on write_cursor, writers on the synclock) have the choices 'interrupted' (EINTR, trace c = 2) and 'spurious wake-up' (c = 3) besides sleeping; all theorems quantify over them; the acceptor maps c = 2 / 3 to these choices; two thirds of the sync-reader / synclock-writer scenarios use them and two list-schedule corpus cases force them on the first would-block waits",
     "not theorems: freedom from lost wake-ups (property C03) is covered by the monitor and trace acceptance only",
     "chan_mo_necessary (coq/C01/ProofsView.v): with the store of write_cursor relaxed the model delivers the slot's previous content (NULL) under a concrete schedule, with the code's orders the same schedule delivers the message",
     "spurious condvar wake-ups (scheduler line 'W <tid> cvspur') are a model transition; ocaml/c01_driver.ml therefore carries its own copy of the shared acceptor (accept_trace_w) that replays W lines instead of echoing them; ocaml/vsacc.ml.inc is unchanged",
@@ -166,6 +167,11 @@ def corpus_cases(ctx):
         out.append(_chan("corpus-fill-single-%s" % rm, "single", rm, 3, [5], "list - " + " ".join(["1"] * 40 + ["0"] * 12 + ["1"] * 30)))
     # two writers, reader asleep in the futex between its check and the wake-up
     out.append(_chan("corpus-sleeper", "sync", "sync", 4, [2, 2], "list - 0 0 0 0 0 0 1 1 1 1 1 1 1 1 2 2 2 2 2 2 2 2 2 2 0 0"))
+    # the reader's first two futex waits that would block: interrupted (EINTR), then a spurious wake-up;
+    # two writers on the synclock whose first would-block wait is interrupted as well
+    out.append(_chan("corpus-futex-eintr", "spin", "sync", 4, [2], "list f0,w1 " + " ".join(["0"] * 12 + ["1"] * 30 + ["0"] * 20)))
+    out.append(_chan("corpus-futex-eintr-synclock", "sync", "sync", 4, [2, 2],
+                     "list f0,f1,w2 " + " ".join(["0"] * 8 + ["1"] * 4 + ["2"] * 8 + ["1"] * 20 + ["2"] * 20 + ["0"] * 20)))
     # permanently full rings
     for cap in (1, 2):
         for rm in RMODES:
@@ -202,8 +208,13 @@ def generate(rng, tier):
                         stick = rng.choice([20, 50, 80, 95])
                         spur = rng.choice([0, 30]) if wk == "sync" else 0
                         cvspur = rng.choice([0, 20]) if rm == "mutex" else 0
+                        # futex-wait choices of the scheduler: a wait that would block is interrupted
+                        # (EINTR) or ends by a spurious wake-up instead
+                        fut = ""
+                        if (rm == "sync" or wk == "sync") and rng.chance(2, 3):
+                            fut = " %d %d" % (rng.choice([0, 20, 40]), rng.choice([0, 20, 40]))
                         cases.append(_chan("chan-%s-%s-%d-%d-%d" % (wk, rm, cap, nw, n), wk, rm, cap, ks,
-                                           "rand %d %d %d %d" % (rng.below(1 << 30), stick, spur, cvspur)))
+                                           "rand %d %d %d %d%s" % (rng.below(1 << 30), stick, spur, cvspur, fut)))
                         n += 1
     cases += _guided_cases(rng, tier)
     qreps = 60 if tier == "quick" else 1500
@@ -340,8 +351,9 @@ def search(rng, diverging, tier):
         cap = rng.range(1, 9)
         ks = [rng.range(1, 5) for _ in range(nw)]
         out.append(_chan("search-chan-%d" % i, wk, rm, cap, ks,
-                         "rand %d %d %d %d" % (rng.below(1 << 30), rng.choice([10, 30, 50, 80, 95]),
-                                               rng.choice([0, 20, 50]), rng.choice([0, 30]))))
+                         "rand %d %d %d %d %d %d" % (rng.below(1 << 30), rng.choice([10, 30, 50, 80, 95]),
+                                                     rng.choice([0, 20, 50]), rng.choice([0, 30]),
+                                                     rng.choice([0, 30]), rng.choice([0, 30]))))
     for i in range(1500):
         cap = rng.range(1, 4)
         ks = [rng.range(1, 4) for _ in range(rng.range(1, 3))]
@@ -574,6 +586,9 @@ def _mon_chan(scen, case, lines):
             elif what == "got":
                 k = len(delivered)
                 delivered.append(v)
+                if v < 0:
+                    return ("read %d returned %s as data: not a message any writer wrote" % (
+                        k, "NULL" if v == -1 else "an unknown pointer"))
                 if k >= len(published):
                     return "read %d returned %d but only %d messages had been published" % (k, v, len(published))
                 if published[k] != v:
@@ -796,6 +811,10 @@ def tally(dist, case, lines):
             dist["wraps"] = dist.get("wraps", 0) + 1
         elif " fwait " in ln and ln.endswith(" 1"):
             dist["futex_sleeps"] = dist.get("futex_sleeps", 0) + 1
+        elif " fwait " in ln and ln.endswith(" 2"):
+            dist["futex_interrupted"] = dist.get("futex_interrupted", 0) + 1
+        elif " fwait " in ln and ln.endswith(" 3"):
+            dist["futex_spurious_wakeups"] = dist.get("futex_spurious_wakeups", 0) + 1
         elif " cvwait " in ln:
             dist["condvar_sleeps"] = dist.get("condvar_sleeps", 0) + 1
         elif ln.startswith("W "):
